@@ -449,6 +449,10 @@ func runC15(ctx *core.Ctx) {
 	//    the final project against `run`, the composition theorems executed on the real code
 	c15GenSeq(ctx)
 
+	// 7. branching histories (round 7): every value ever produced is kept, operations go to randomly chosen EARLIER values,
+	//    partition + "unchanged since produced" on ALL values after every step; hand-built, WithProfiles and loader roots
+	c15GenBranch(ctx)
+
 	ctx.Wait()
 	ctx.Note("c15hist: %d steps compared exactly with the model and decided against the spec; %d select steps look like the pre-fix order-dependent loop (must be 0); %d steps returned 'no such service'; spec skipped on %d steps whose receiver is not a partition or has a Name that differs from its key (malformed stream)",
 		c15Steps.Load(), c15ViaOrder.Load(), c15ErrSteps.Load(), c15SpecSkipped.Load())
